@@ -124,12 +124,55 @@ def check_name(ctx, comps):
             bad(f'normalize-raises:{label}:{type(e).__name__}', f'normalize({label}) raised {e!r}')
 
 
+def alt_comp_uri(rng, c):
+    """Another legal URI spelling of the same component: explicit type number for generic components, every octet (or a random
+    share of them) percent-encoded with upper- or lower-case hex digits, raw UTF-8 for non-ASCII text, T=%.. instead of a shorthand."""
+    t, v = rc.comp_parts(c)
+    k = rng.randrange(5)
+    hexfmt = '%%%02X' if rng.random() < 0.5 else '%%%02x'
+    if k == 0:
+        body = ''.join(hexfmt % b for b in v)
+    elif k == 1:
+        body = ''.join((hexfmt % b) if (rng.random() < 0.5 or not (chr(b).isalnum() and b < 128)) else chr(b) for b in v)
+    elif k == 2:
+        try:
+            txt = v.decode('utf-8')
+            body = txt if all(ord(ch) > 127 or ch.isalnum() for ch in txt) and txt else rc.comp_to_canonical_uri(c).split('=', 1)[-1] if t != 8 else rc.comp_to_canonical_uri(c)
+        except UnicodeDecodeError:
+            body = ''.join(hexfmt % b for b in v)
+        if t == 8 and body == rc.comp_to_canonical_uri(c):
+            return '8=' + body if body else rc.comp_to_canonical_uri(c)
+    else:
+        body = rc.comp_to_canonical_uri(c).split('=', 1)[-1] if t != 8 else rc.comp_to_canonical_uri(c)
+        if t == 8:
+            return ('8=' + body) if body and set(body) != {'.'} else body
+    if not body:
+        return rc.comp_to_canonical_uri(c)
+    return f'{t}={body}' if (t != 8 or rng.random() < 0.5) else body
+
+
+def alt_name_uri(rng, comps):
+    return '/' + '/'.join(alt_comp_uri(rng, c) for c in comps) if comps else '/'
+
+
 def check_pair(ctx, a, b):
     exp = len(a) <= len(b) and [bytes(x) for x in b[:len(a)]] == [bytes(x) for x in a]
-    forms_a = [a, rc.enc_name(a), rc.name_to_uri(a, canonical=True)]
-    forms_b = [b, rc.enc_name(b), rc.name_to_uri(b, canonical=True)]
-    fa = forms_a[ctx.rng.randrange(3)]
-    fb = forms_b[ctx.rng.randrange(3)]
+    forms_a = [a, rc.enc_name(a), rc.name_to_uri(a, canonical=True), alt_name_uri(ctx.rng, a), alt_name_uri(ctx.rng, a)]
+    forms_b = [b, rc.enc_name(b), rc.name_to_uri(b, canonical=True), alt_name_uri(ctx.rng, b), alt_name_uri(ctx.rng, b)]
+    ia, ib = ctx.rng.randrange(5), ctx.rng.randrange(5)
+    fa, fb = forms_a[ia], forms_b[ib]
+    if ia >= 3 and ib >= 3:
+        ctx.event('is-prefix-both-uris-other-spelling')
+    # an alternative spelling must denote the same name in the first place (else it is not judged: the spelling rules are the library's)
+    for alt, comps in ((fa, a), (fb, b)):
+        if isinstance(alt, str):
+            try:
+                if as_list(Name.from_str(alt)) != [bytes(x) for x in comps]:
+                    ctx.event('alt-spelling-read-differently')
+                    return
+            except Exception:   # noqa
+                ctx.event('alt-spelling-refused')
+                return
     try:
         got = Name.is_prefix(fa, fb)
     except Exception as e:   # noqa
@@ -307,7 +350,7 @@ def run(ctx):
         ctx.case(None, nontrivial=False, count=len(pool) ** 2)
         ctx.extra['all_pairs_pool'] = len(pool)
     for k in ('wire', 'canonical-uri', 'uri', 'normalize', 'is-prefix-true', 'is-prefix-false', 'name-order',
-              'component-order', 'history', 'history-mutable-result-edited'):
+              'component-order', 'history', 'history-mutable-result-edited', 'is-prefix-both-uris-other-spelling'):
         ctx.need_event(k)
     ctx.assumptions = ['URI convention is the one python-ndn documents (no extra-period rule; = and % escaped)',
                        'shorthand URI round trip is demanded only for canonically encoded typed numbers']
